@@ -31,8 +31,8 @@ PROPS = {
         explanation='node tests of the evaluator: eval_node_test answers `*` with "the node is an element or an attribute (or namespace) node", text() with text / CDATA / entity-reference nodes, comment() and processing-instruction() by node type, node() always, and processing-instruction(\'t\') by node type and target, for every node',
     ),
     'C12': dict(
-        standin_ops=['dom.views_after_edits', 'dom.tree_atomic'],
-        verus_units=['c13_tree'],
+        standin_ops=['dom.views_after_edits', 'dom.children_after_edits', 'dom.tree_atomic'],
+        verus_units=['c13_tree', 'c12_idmap'],
         level='proof',
         trusted_base=TRUSTED_VERUS,
         assumptions=[A4, A8, 'world model: the parent link of every item of the document is a ghost map on the receiver; value.remove_from_parent() is an assumed callee (the old parent forgets the item, its parent link becomes None; if the old parent is the receiver its own list loses the item); XmlAttributeValue::try_from accepts exactly text, character references and entity references; HasParent::ancestor is an assumed read-only callee',
@@ -130,7 +130,7 @@ PROPS = {
         explanation='DOM Level 1 CharacterData over the character sequence of text, comment and CDATA nodes, three layers (info helpers, info methods, DOM methods and CharacterDataMut trait defaults), every function verified against the contracts of its callees for all contents, offsets and counts, including absence of overflow and of std panics',
     ),
     'C13': dict(
-        standin_ops=['dom.tree_atomic', 'dom.text.insert_data', 'dom.text.delete_data', 'dom.text.replace_data', 'dom.text.append_data', 'dom.text.set_data', 'dom.comment.insert_data', 'dom.comment.delete_data', 'dom.comment.replace_data', 'dom.comment.append_data', 'dom.comment.set_data', 'dom.cdata.insert_data', 'dom.cdata.delete_data', 'dom.cdata.replace_data', 'dom.cdata.append_data', 'dom.cdata.set_data'],
+        standin_ops=['dom.tree_atomic', 'dom.children_after_edits', 'dom.text.insert_data', 'dom.text.delete_data', 'dom.text.replace_data', 'dom.text.append_data', 'dom.text.set_data', 'dom.comment.insert_data', 'dom.comment.delete_data', 'dom.comment.replace_data', 'dom.comment.append_data', 'dom.comment.set_data', 'dom.cdata.insert_data', 'dom.cdata.delete_data', 'dom.cdata.replace_data', 'dom.cdata.append_data', 'dom.cdata.set_data'],
         verus_units=['c16_chardata', 'c13_tree'],
         level='proof',
         trusted_base=TRUSTED_VERUS,
